@@ -190,17 +190,17 @@ func feedScenario(rng *rand.Rand, rec *frec, name string) (wedged bool) {
 			return false
 		}
 	}
-	if !waitOr(&sendWG, 20*time.Second) {
+	if !waitOr(&sendWG, 120*time.Second) {
 		wedged = true
 	}
 	close(sendsDone)
-	if !waitOr(&ctrlWG, 20*time.Second) {
+	if !waitOr(&ctrlWG, 120*time.Second) {
 		wedged = true
 	}
 	for i := 0; i < nSub; i++ {
 		close(stop[i])
 	}
-	if !waitOr(&recvWG, 20*time.Second) {
+	if !waitOr(&recvWG, 120*time.Second) {
 		wedged = true
 	}
 	if !wedged {
